@@ -105,7 +105,11 @@ def run(ctx):
             if not ctx.mine(idx):
                 continue
             fam = fams[idx % len(fams)]
-            check_universe(ctx, TR.build_ch(ch, fam), gen.parents_of(ch), {"family": fam, "state": [list(c) for c in ch]}, key=(fam, ch))
+            nm = None
+            if idx % 3 == 0:
+                fam = "Node"
+                nm = ([(), ("x",), ("a", "b", "c")][idx % 3:] + [("n", i) for i in range(k)])[:k]  # non-string names (tuples) show in error messages
+            check_universe(ctx, TR.build_ch(ch, fam, nm), gen.parents_of(ch), {"family": fam, "state": [list(c) for c in ch], "tuple_names": nm is not None}, key=(fam, ch, nm is not None))
     nrand = (40000 if T else 320) // ctx.nshards + 1
     for r in range(nrand):
         rng = ctx.rng("rand", r)
@@ -169,5 +173,5 @@ def _replay_static(ctx, wit):
         nodes, par = TR.build(c["par"], c["family"]), c["par"]
     else:
         ch = tup(c["state"])
-        nodes, par = TR.build_ch(ch, c["family"]), gen.parents_of(ch)
+        nodes, par = TR.build_ch(ch, c["family"], [("n", i) for i in range(len(ch))] if c.get("tuple_names") else None), gen.parents_of(ch)
     check_universe(ctx, nodes, par, c, [(c["start"], c["end"])] if "start" in c else None, key="replay")
